@@ -213,6 +213,11 @@ PhSetFull ==   \* FAIL("Maximum number of function pointers installed!") : nothi
     /\ g' = [g EXCEPT !.failEvents = @ + 1]
     /\ pc' = "phUnwind"
     /\ UNCHANGED <<reg, script, cfg, order, rep, pos, ph, k, setupOk, grpStart, jmp, accFail, accExec, exitv, ptr, table>>
+\* A test body may itself drive a complete run of another registry with its own result and output (TestTestingFixture does; the harness
+\* does so in programs marked "nest"): when that run returns, the outer run is where it was - current test, current result, counters,
+\* jump-buffer stack.  No variable of this module changes: a nested run is a stuttering step.
+\* Likewise the order in which a program gives its options and its tests to the registry (setRunIgnored before or after addTest) is
+\* not part of cfg: the run is the same.
 \* the scripted event of the phase
 \* Where the failing check of phase p of test t stands (the harness places it there): the test itself is at line 1000*t of its own file.
 \*   place 0: in the test's file behind the test's line (the usual case)      -> one location line: the failure's
